@@ -1622,8 +1622,11 @@ impl Variables {
             context.update(&0u16.to_be_bytes());
         }
         // Other
+        //
+        // RFC 8945, section 4.3.3: other data is digested exactly as
+        // transmitted, i.e., as the 6 octets of a 48 bit time value.
         if let Some(time) = self.other {
-            context.update(&u64::from(time).to_be_bytes());
+            context.update(&time.into_octets());
         }
     }
 
